@@ -85,6 +85,18 @@ SimplePairsOf(R) == LET n == Len(R) IN
                                                        Pat(R[((k - 1) % n) + 1], 1) >>, <<>>) >>,
                          simple |-> TRUE]]
 
+\* add_patterns() with a pattern string listed twice: the patterns behind it keep their indices
+SimpleTriplesOf(R) == LET n == Len(R) IN
+  [k \in 1..(n * n) |-> [modes |-> << Mode("INITIAL", << Pat(R[((k - 1) \div n) + 1], 0),
+                                                       Pat(R[((k - 1) \div n) + 1], 1),
+                                                       Pat(R[((k - 1) % n) + 1], 2) >>, <<>>) >>,
+                         simple |-> TRUE]]
+  \o [k \in 1..(n * n) |-> [modes |-> << Mode("INITIAL", << Pat(R[((k - 1) \div n) + 1], 0),
+                                                          Pat(R[((k - 1) % n) + 1], 1),
+                                                          Pat(R[((k - 1) \div n) + 1], 2),
+                                                          Pat(R[((k * 7) % n) + 1], 3) >>, <<>>) >>,
+                            simple |-> TRUE]]
+
 \* four patterns from the core (thorough tier)
 QuadsOf(R) == LET n == Len(R) IN
   [k \in 1..(n * n * n * n) |-> OneMode(<< Pat(R[((k - 1) \div (n * n * n)) + 1], 4),
@@ -99,6 +111,7 @@ U_C01_pairs   == TLCEval(PairsOf(R1))
 U_C01_singles == TLCEval(SinglesOf(R2))
 U_C01_triples == TLCEval(TriplesOf(Core12))
 U_C01_simple  == TLCEval(SimplePairsOf(R1))
+U_C01_simple3 == TLCEval(SimpleTriplesOf(Core12))
 Syms_C01 == << SymA, SymE2, SymS4 >>      \* atom 3 is in no leaf: never matched
 \* ---- C04 / C05: lookaheads --------------------------------------------------------------
 \* atoms: 1 = a (1 byte), 2 = U+00E9 (2 bytes, "b"), 3 = U+1F600 (4 bytes, "c")
